@@ -91,7 +91,7 @@ PROFILES = {
     "mixed": {},
     "copy2": {"copy_out": 3.0, "copy": 3.0, "mk_object": 3.0, "add_data": 4.0, "pg_add": 2.0, "remove": 1.5},
     "churn": {"remove": 4.0, "move": 4.0, "copy": 2.0, "reopen": 2.0, "mk_group": 3.0, "listing": 1.5, "gc": 1.5},
-    "refuse": {"remove_protected": 2.5, "remove": 2.0, "move": 2.0, "add_data_fail": 2.5, "move_data": 2.0, "pg_add": 3.0, "add_data": 5.0},
+    "refuse": {"remove_protected": 2.5, "remove_partial": 2.5, "remove": 2.0, "move": 2.0, "add_data_fail": 2.5, "move_data": 2.0, "pg_add": 3.0, "add_data": 5.0},
     "drill": {"mk_object": 2.0, "add_data": 3.0, "remove": 2.0, "copy": 1.5},
 }
 
@@ -182,8 +182,9 @@ def run_drill(case, rec, rng):
         dh_group = DrillholeGroup.create(ws, name="DH")
         cont = ContainerGroup.create(ws, name="cont")
         holes = []
+        extra_groups = []
         for step in range(case["n_ops"]):
-            k = rng.choice(["hole", "data", "points", "remove_hole", "remove_data", "copy_group", "reopen", "interval"])
+            k = rng.choice(["hole", "data", "points", "remove_hole", "remove_data", "copy_group", "reopen", "interval", "group_note", "second_group", "remove_second_group", "remove_group_note"])
             ops.append(k)
             mon.kinds.add({"remove_hole": "remove", "remove_data": "remove", "copy_group": "copy"}.get(k, k))
             if k == "hole" or not holes:
@@ -200,6 +201,35 @@ def run_drill(case, rec, rng):
                 h.add_data({f"int{rng.randint(0, 2)}_{step}": {"from-to": ft, "values": np.arange(n, dtype=float) + 10 * step}}, property_group="itab")
             elif k == "points":
                 Points.create(ws, parent=cont, name=f"p{step}", vertices=np.zeros((3, 3)))
+            elif k == "group_note":  # ordinary (non-concatenated) data owned by a drillhole group
+                if rng.random() < 0.5:
+                    dh_group.add_comment(f"note {step}", author="me")
+                else:
+                    dh_group.add_file(b"attachment", name=f"att{step}.bin")
+                rec.see("drillhole-group-ordinary-data")
+            elif k == "second_group":
+                g2 = DrillholeGroup.create(ws, name=f"DH2_{step}", parent=cont if rng.random() < 0.5 else None)
+                h2 = Drillhole.create(ws, parent=g2, name=f"g2h{step}", collar=[0.0, float(step), 5.0], surveys=np.array([[0.0, 0.0, -90.0], [20.0, 10.0, -80.0]]))
+                h2.add_data({"assay": {"depth": np.arange(3.0) + 0.5, "values": np.arange(3.0)}}, property_group="dtab")
+                if rng.random() < 0.7:
+                    g2.add_comment("second group note", author="me")
+                if rng.random() < 0.5:
+                    g2.add_file(b"bytes", name="second.bin")
+                extra_groups.append(g2.uid)
+                del g2, h2
+            elif k == "remove_second_group" and extra_groups:
+                u = extra_groups.pop(rng.randrange(len(extra_groups)))
+                g2 = ws.get_entity(u)[0]
+                ws.remove_entity(g2)
+                del g2
+                mon.kinds.add("remove")
+                rec.see("drillhole-group-removals")
+            elif k == "remove_group_note":
+                notes = [c for c in dh_group.children if hasattr(c, "values")]
+                if notes:
+                    ws.remove_entity(rng.choice(notes))
+                    notes = None
+                    rec.see("drillhole-group-data-removals")
             elif k == "remove_hole" and len(holes) > 1:
                 u = holes.pop(rng.randrange(len(holes)))
                 ws.remove_entity(ws.get_entity(u)[0])
